@@ -37,6 +37,11 @@ CHECKS = {
                      "symbolic continuation of n+2 inputs on the reset instance and on a fresh one: outputs pairwise equal, period()/multiplier() unchanged; violations replayed natively. "
                      "Non-finite histories are covered by the Kani harnesses where registered.",
                 technique="symbolic execution of rustc MIR into z3 (reset/next/new of the real code), native replay", design='4/C04'),
+    'C16': dict(text="Bounded model checking by CBMC on the compiled crate: a symbolic script of up to 7 (9) setter calls (which setter and which value symbolic, every f64 bit pattern incl. NaN/inf/-0.0) "
+                     "followed by build(), against a last-value-per-field model: Incomplete iff a field never set, else Invalid iff the six comparisons fail, else Ok with bit-exact getters and an equal clone; "
+                     "plus all five setters in any symbolic order. Counterexamples are decoded from concrete playback and replayed natively (dev and release).",
+                technique="Kani/CBMC proof harness over kani::any() inputs (bit-precise IEEE-754), native replay of counterexamples", design='4/C16', engine='kani',
+                note="Trusted base: Kani 0.68 / CBMC 6.11 (cadical) on the dev-profile build of /repo through a path dependency; unwinding assertions on; kani::cover as reachability witness."),
 }
 NA = {
     'C19': "decided by rustc's type checker once and for all; there is no input, state or schedule for an SMT/SAT solver to quantify over",
@@ -67,7 +72,7 @@ def main():
         'engines': [
             {'name': 'mirsym', 'path': 'vlib/mirsym.py', 'serves_properties': [p for p in ALL if p in CHECKS],
              'kind_free_text': 'symbolic executor for rustc MIR text -> z3 (reals/ints), two-stage solving, native replay'},
-            {'name': 'kani', 'path': 'kani/', 'serves_properties': [], 'kind_free_text': 'Kani 0.68 / CBMC 6.11 proof harnesses on the compiled crate (external crate, path dependency)'},
+            {'name': 'kani', 'path': 'vlib/kani.py', 'serves_properties': [p for p in ALL if p in CHECKS], 'kind_free_text': 'Kani 0.68 / CBMC 6.11 proof harnesses on the compiled crate (external crate, path dependency)'},
             {'name': 'replay', 'path': 'replay/', 'serves_properties': [p for p in ALL if p in CHECKS], 'kind_free_text': 'native replay binary for solver models'},
         ],
         'checks': checks,
